@@ -762,3 +762,19 @@ theorem one_dead {g : Gen} {b : Nat} {c : Cfg} (hI : RLInv g b c) (hdead : ∀ t
     unfold step at hd0
     simp only [List.getElem?_cons_zero, hmw, hso] at hd0
     simpa using hd0
+
+/-- `enabled c = []` means that no thread can take a step -/
+theorem enabled_nil {c : Cfg} (h : enabled c = []) (tid : Queue.Tid) : step c tid = none := by
+  rcases Nat.lt_or_ge tid c.ths.length with hlt | hge
+  · cases hs : step c tid with
+    | none => rfl
+    | some r =>
+      exfalso
+      have : tid ∈ enabled c := by
+        unfold enabled
+        rw [List.mem_filter]
+        exact ⟨List.mem_range.mpr hlt, by rw [hs]; rfl⟩
+      rw [h] at this; cases this
+  · exact step_none_of_getElem? (List.getElem?_eq_none hge)
+
+end MlModel.Prefetch
